@@ -635,7 +635,232 @@ UNITS = [("Urandom.Generated.Scalar.splitmix", "src/rng/splitmix64.rs", ["mix64"
 GROUPS = [("Scalar", ["splitmix", "wyrand", "xoshiro", "util"], "src/rng/{splitmix64,wyrand,xoshiro256,util}.rs"),
           ("ScalarFloat01", ["float01"], "src/distr/float01.rs"),
           ("ScalarUniformInt", ["uniform_int"], "src/distr/uniform/int.rs"),
-          ("ScalarChaCha", ["chacha"], "src/rng/chacha.rs")]
+          ("ScalarChaCha", ["chacha"], "src/rng/chacha.rs"),
+          ("ScalarStandard", ["standard"], "src/distr/{standard,alnum}.rs")]
+
+
+def float01_samples(repo):
+    """`impl Distribution<f32> for Float01` / `<f64>`: `sample`.  Every `rand.next_*()` is a parameter, numbered in evaluation order (statements
+    in order, arguments left to right) and listed by method name in `sample_<T>_draws`; `.leading_zeros()` of a 64-bit draw is the parameter
+    `lz : BitVec 64 → BitVec 32` (its meaning is given where the theorem is stated); calls to the sibling helpers are the translated helpers."""
+    path = os.path.join(repo, "src/distr/float01.rs")
+    raw, _ = parse_fns(open(path).read())
+    cands = [f for f in raw.get("sample", []) if f[0] and f[0][0][0] == "self"]
+    if len(cands) != 2:
+        raise TranslateError("float01.rs: expected two `sample` methods (f32, f64), found %d" % len(cands))
+    unit = next(Unit(ns, os.path.join(repo, r), wanted) for ns, r, wanted in UNITS if ns.endswith(".float01"))
+    out = []
+    for params, ret, body in cands:
+        if not ret or ret[0][1] not in ("f32", "f64"):
+            raise TranslateError("float01.rs: sample returns %r" % (ret,))
+        T = ret[0][1]
+        draws = []
+
+        class F(Fn):
+            def typed(self, e):
+                if e[0] == "mcall" and e[2] == "leading_zeros":
+                    return ("u", 32)
+                if e[0] == "mcall" and e[1] == ("id", "rand"):
+                    return ("u", 32 if e[2].endswith("32") else 64)
+                return Fn.typed(self, e)
+
+            def expr(self, e, expect=None):
+                if e[0] == "mcall" and e[1] == ("id", "rand") and not e[3]:
+                    if e[2] not in ("next_u32", "next_u64", "next_f32", "next_f64"):
+                        raise TranslateError("draw %s" % e[2])
+                    draws.append(e[2])
+                    return "d%d" % len(draws), ("u", 32 if e[2].endswith("32") else 64)
+                if e[0] == "mcall" and e[2] == "leading_zeros" and not e[3]:
+                    a, at = self.expr(e[1])
+                    if at != ("u", 64):
+                        raise TranslateError("leading_zeros of a %r" % (at,))
+                    return "(lz %s)" % a, ("u", 32)
+                return Fn.expr(self, e, expect)
+        fn = F(unit, "sample_" + T, [], None, body)
+        fn.ret = ("u", WIDTH[T])
+        fn.lines, fn.result, fn.aux = [], fn.tail, []
+        fn.run(fn.stmts)
+        if fn.result is None:
+            raise TranslateError("float01.rs: sample has no result")
+        t, ty = fn.expr(fn.result, fn.ret)
+        sig = " ".join("(d%d : BitVec %d)" % (i + 1, 32 if d.endswith("32") else 64) for i, d in enumerate(draws))
+        out.append("def sample_%s (lz : BitVec 64 → BitVec 32) %s :=\n%s\n" % (T, sig, "\n".join("  " + l for l in fn.lines + [t])))
+        out.append("def sample_%s_draws : List String := [%s]\n" % (T, ", ".join('"%s"' % d for d in draws)))
+    return "namespace float01\n" + "\n".join(out) + "end float01\n"
+
+
+def standard_prims(repo):
+    """the invocations `impl_standard_dist! { <ty>, rand => <expr or block> }` of src/distr/standard.rs (those for 32-bit targets left out):
+    each becomes `std_<ty> d1 [d2]` over the draws in evaluation order (`std_<ty>_draws` lists their methods).  Casts: to a narrower or equal
+    width = truncation, from an unsigned draw to a wider type = zero extension; `(x as iN) < 0` is the signed comparison."""
+    path = os.path.join(repo, "src/distr/standard.rs")
+    src = open(path).read()
+    text = re.sub(r"//[^\n]*", "", src)
+    unit = Unit("Urandom.Generated.Scalar.standard", os.path.join(repo, "src/rng/util.rs"), [])
+    out = ["namespace standard"]
+    seen = []
+    for m in re.finditer(r'(#\[cfg\(target_pointer_width\s*=\s*"(\d+)"\)\]\s*)?impl_standard_dist!\s*\{', text):
+        depth, j = 1, m.end()
+        while depth:
+            depth += {"{": 1, "}": -1}.get(text[j], 0)
+            j += 1
+        if m.group(2) == "32":
+            continue
+        inner = retok(tokenize(text[m.end():j - 1]))
+        if True:
+            tname = inner[0][1]
+            # <ty> , rand => body
+            if inner[1] == ("op", ",") and inner[2] == ("id", "rand") and inner[3] == ("op", "=>"):
+                body = inner[4:]
+            elif inner[1] == ("op", ",") and inner[2] == ("id", "rand") and inner[3] == ("op", "=") and inner[4] == ("op", ">"):
+                body = inner[5:]
+            else:
+                raise TranslateError("standard.rs: invocation for %s" % tname)
+            if body and body[0] == ("op", "{") and matching(body, 0) == len(body) - 1:
+                body = body[1:-1]
+            draws = []
+            rty = ("bool",) if tname == "bool" else ("u", WIDTH[tname]) if tname in WIDTH else ("i", SIGNED[tname]) if tname in SIGNED else ("u", UNSIGNED[tname]) if tname in UNSIGNED else None
+            if rty is None:
+                raise TranslateError("standard.rs: type %s" % tname)
+
+            class F(LoopFn):
+                def __init__(self):
+                    self.u, self.name, self.suffix = unit, "std", tname
+                    self.params, self.ret = [], rty
+                    self.stmts, self.tail = P(body).body()
+                    self.env, self.muts, self.sig = {}, [], []
+
+                def typed(self, e):
+                    if e[0] == "mcall" and e[1] == ("id", "rand"):
+                        return ("u", 32 if e[2].endswith("32") else 64)
+                    return LoopFn.typed(self, e)
+
+                def expr(self, e, expect=None):
+                    if e[0] == "mcall" and e[1] == ("id", "rand") and not e[3]:
+                        if e[2] not in ("next_u32", "next_u64", "next_f32", "next_f64"):
+                            raise TranslateError("draw %s" % e[2])
+                        draws.append(e[2])
+                        return "d%d" % len(draws), ("u", 32 if e[2].endswith("32") else 64)
+                    if e[0] == "cast":
+                        t, ty = self.expr(e[1], None)
+                        to = self.cast_ty(e[2][0])
+                        if ty[0] == "i" and to[1] > ty[1]:
+                            raise TranslateError("widening cast from a signed type")
+                        return (t if to[1] == ty[1] else "((%s).setWidth %d)" % (t, to[1])), to
+                    if e[0] == "bin" and e[1] == "<" and e[3] == ("num", 0):
+                        l, lt = self.expr(e[2], None)
+                        if lt[0] != "i":
+                            raise TranslateError("`< 0` on an unsigned value")
+                        return "(BitVec.slt %s 0#%d)" % (l, lt[1]), ("bool",)
+                    if e[0] == "bin" and e[1] in ("|", "<<"):
+                        lt0 = self.typed(e[2]) or expect
+                        l, lt = self.expr(e[2], lt0)
+                        if e[1] == "<<":
+                            return "(%s <<< %s)" % (l, self.nat(e[3])), lt
+                        r, rt = self.expr(e[3], lt)
+                        if lt[1] != rt[1]:
+                            raise TranslateError("operands of different widths")
+                        return "(%s ||| %s)" % (l, r), lt
+                    return LoopFn.expr(self, e, expect)
+
+                def typed_local(self, n):
+                    return self.env[n][2]
+            fn = F()
+            fn.lines, fn.result, fn.aux = [], fn.tail, []
+            for st in fn.stmts:
+                if not (st[0] == "let" and st[1][0] == "pid"):
+                    raise TranslateError("standard.rs: statement in the invocation for %s" % tname)
+                t, ty = fn.expr(st[2], None)
+                fn.env[st[1][1]] = ("var", st[1][1], ty)
+                fn.lines.append("let %s := %s" % (st[1][1], t))
+            if fn.result is None:
+                raise TranslateError("standard.rs: no value in the invocation for %s" % tname)
+            t, ty = fn.expr(fn.result, rty if rty[0] != "bool" else None)
+            if rty[0] == "bool":
+                if ty != ("bool",):
+                    raise TranslateError("standard.rs: bool from %r" % (ty,))
+            elif ty[1] != rty[1]:
+                raise TranslateError("standard.rs: %s from a value of %d bits" % (tname, ty[1]))
+            sig = " ".join("(d%d : BitVec %d)" % (i + 1, 32 if d.endswith("32") else 64) for i, d in enumerate(draws))
+            out.append("def std_%s %s :=\n%s\n" % (tname, sig, "\n".join("  " + l for l in fn.lines + [t])))
+            out.append("def std_%s_draws : List String := [%s]\n" % (tname, ", ".join('"%s"' % d for d in draws)))
+            seen.append(tname)
+    want = ["bool", "i8", "u8", "i16", "u16", "i32", "u32", "i64", "u64", "i128", "u128", "isize", "usize", "f32", "f64"]
+    if seen != want:
+        raise TranslateError("standard.rs: invocations for %r (expected %r)" % (seen, want))
+    out.append("end standard\n")
+    return "\n".join(out)
+
+
+def alnum(repo):
+    """src/distr/alnum.rs: the table `ALNUM` (a byte string; its declared length must be its length) and one trip round the loop of
+    `Distribution<char> for Alnum`: `let value = <expr of one next_u32>; if <cond> { break ALNUM[<idx>] as char; }` becomes
+    `alnum_iter d1 : Option (Option Nat)` - `none` = go round again, `some none` = the index is out of bounds (a panic), `some (some c)` = the
+    byte returned as a char."""
+    path = os.path.join(repo, "src/distr/alnum.rs")
+    src = re.sub(r"//[^\n]*", "", open(path).read())
+    m = re.search(r'const\s+ALNUM\s*:\s*&\[u8;\s*(\d+)\]\s*=\s*b"([^"\\\\]*)"\s*;', src)
+    if not m or int(m.group(1)) != len(m.group(2)):
+        raise TranslateError("alnum.rs: the table ALNUM")
+    table = [ord(ch) for ch in m.group(2)]
+    raw, _ = parse_fns(re.sub(r'b"[^"]*"', "0", src))
+    cands = [f for f in raw.get("sample", []) if f[0] and f[0][0][0] == "self"]
+    if len(cands) != 1:
+        raise TranslateError("alnum.rs: sample not found (or not unique)")
+    stmts, tail = P(cands[0][2]).body()
+    if not (len(stmts) == 1 and stmts[0][0] == "loop" and tail is None):
+        raise TranslateError("alnum.rs: the body is not one loop")
+    body = list(stmts[0][1][1])
+    if stmts[0][1][2] is not None:
+        raise TranslateError("alnum.rs: the loop has a value")
+    if not (len(body) == 2 and body[0][0] == "let" and body[0][1][0] == "pid" and body[1][0] == "if" and body[1][3] is None):
+        raise TranslateError("alnum.rs: the loop is not `let value = ..; if .. { break .. }`")
+    unit = Unit("Urandom.Generated.Scalar.alnum", os.path.join(repo, "src/rng/util.rs"), [])
+    draws = []
+
+    class F(LoopFn):
+        def __init__(self):
+            self.u, self.name, self.suffix = unit, "alnum", ""
+            self.params, self.ret = [], None
+            self.env, self.muts, self.sig = {}, [], []
+
+        def typed(self, e):
+            if e[0] == "mcall" and e[1] == ("id", "rand"):
+                return ("u", 32 if e[2].endswith("32") else 64)
+            if e[0] == "mcall" and e[1] == ("id", "ALNUM") and e[2] == "len":
+                return ("u", 64)
+            return LoopFn.typed(self, e)
+
+        def expr(self, e, expect=None):
+            if e[0] == "mcall" and e[1] == ("id", "rand") and not e[3]:
+                if e[2] != "next_u32" or draws:
+                    raise TranslateError("alnum.rs: draws")
+                draws.append(e[2])
+                return "d1", ("u", 32)
+            if e[0] == "mcall" and e[1] == ("id", "ALNUM") and e[2] == "len" and not e[3]:
+                return "(BitVec.ofNat 64 alnum_table.length)", ("u", 64)
+            return LoopFn.expr(self, e, expect)
+    fn = F()
+    fn.lines = []
+    t, ty = fn.expr(body[0][2], None)
+    fn.env[body[0][1][1]] = ("var", body[0][1][1], ty)
+    lines = ["let %s := %s" % (body[0][1][1], t)]
+    c, cty = fn.expr(body[1][1], None)
+    if cty != ("bool",):
+        raise TranslateError("alnum.rs: condition")
+    blk = body[1][2]
+    brk = (blk[1][0] if blk[1] else None)
+    if not (brk and brk[0] == "break" and len(blk[1]) == 1):
+        raise TranslateError("alnum.rs: the guarded statement is not a break")
+    v = brk[1]
+    if not (v[0] == "cast" and v[2] == ["char"] and v[1][0] == "index" and v[1][1] == ("id", "ALNUM")):
+        raise TranslateError("alnum.rs: the value is not ALNUM[..] as char")
+    i, ity = fn.expr(v[1][2], None)
+    if fn.lines:
+        raise TranslateError("alnum.rs: hoisted statements")
+    lines.append("if %s then some (alnum_table[(%s).toNat]?) else none" % (c, i))
+    return ("namespace alnum\ndef alnum_table : List Nat := [%s]\n\ndef alnum_iter (d1 : BitVec 32) : Option (Option Nat) :=\n%s\n\n"
+            "def alnum_draws : List String := [%s]\nend alnum\n" % (", ".join(map(str, table)), "\n".join("  " + l for l in lines), ", ".join('"%s"' % d for d in draws)))
 
 
 def generate(repo, out_dir, write):
@@ -647,6 +872,11 @@ def generate(repo, out_dir, write):
             for ns, rel, wanted in UNITS:
                 if ns.split(".")[-1] in members:
                     parts.append(Unit(ns, os.path.join(repo, rel), wanted).lean())
+            if "float01" in members:
+                parts.append(float01_samples(repo))
+            if "standard" in members:
+                parts.append(standard_prims(repo))
+                parts.append(alnum(repo))
             if "uniform_int" in members:
                 parts.append(uniform_int(repo)[0])
             if "xoshiro" in members:
@@ -669,7 +899,7 @@ if __name__ == "__main__" and len(sys.argv) == 1:
 
 
 # ------------------------------------------------------------------------------------------------ the integer sampler (macro-generated)
-SIGNED = {"i8": 8, "i16": 16, "i32": 32, "i64": 64, "isize": 64}
+SIGNED = {"i8": 8, "i16": 16, "i32": 32, "i64": 64, "isize": 64, "i128": 128}
 UNSIGNED = {"u8": 8, "u16": 16, "u32": 32, "u64": 64, "usize": 64, "u128": 128}
 
 
